@@ -26,7 +26,7 @@ def model_check():
     """Exhaustive MC of the rule: all paths <= 6 polls x 3 engine calls under every fault; plus the
     deviation switches, each of which must violate (the invariants are not vacuous)."""
     wd = lib.fresh_spec_copy()
-    res = lib.tlc("MC_Faults", cfg="MC_Faults.cfg", workdir=wd, workers=4, timeout=600)
+    res = lib.tlc("MC_Faults", cfg="MC_Faults.cfg", workdir=wd, workers=4, timeout=900, heap="2g")
     if res.rc != 0 or res.errors or "No error has been found" not in res.out:
         raise lib.InfraError("MC_Faults did not pass (specification problem, not a verdict):\n" + res.out[-4000:])
     base = open(os.path.join(wd, "MC_Faults.cfg")).read()
@@ -35,7 +35,7 @@ def model_check():
         cfg = base.replace("%s = FALSE" % dev, "%s = TRUE" % dev) if dev != "Sticky" else \
             base.replace("Sticky = TRUE", "Sticky = FALSE")
         open(os.path.join(wd, "dev.cfg"), "w").write(cfg)
-        r = lib.tlc("MC_Faults", cfg="dev.cfg", workdir=wd, workers=2, timeout=600)
+        r = lib.tlc("MC_Faults", cfg="dev.cfg", workdir=wd, workers=2, timeout=900, heap="2g")
         if "RuleHolds" not in r.invariant_violated and "SuccessIsComplete" not in r.invariant_violated:
             raise lib.InfraError("MC_Faults with %s does not violate the rule: the invariant is vacuous\n%s"
                                  % (dev, r.out[-3000:]))
@@ -49,7 +49,7 @@ def validate_file(trace_path, timeout=1500):
     for f in ("Faults.tla", "FaultsTrace.tla", "FaultsTrace.cfg"):
         shutil.copy(os.path.join(lib.SPEC_DIR, f), wd)
     shutil.copy(trace_path, os.path.join(wd, "trace.ndjson"))
-    res = lib.tlc("FaultsTrace", cfg="FaultsTrace.cfg", workdir=wd, workers=1, timeout=timeout)
+    res = lib.tlc("FaultsTrace", cfg="FaultsTrace.cfg", workdir=wd, workers=1, timeout=timeout, heap="3g")
     shutil.rmtree(wd, ignore_errors=True)
     if res.rc != 0 or res.errors or "Model checking completed" not in res.out:
         raise lib.InfraError("TLC failed on %s:\n%s" % (trace_path, res.out[-5000:]))
